@@ -65,14 +65,14 @@ theorem sameForMatching_sound (k1 k2 : Key) (h : sameForMatching k1 k2 = true) :
       simp only [asciiUni, hl, and_self, if_true] at this
       omega
     constructor
-    · rintro (h | ⟨h, hM⟩ | h | h | h | ⟨_, hl, h, _⟩)
+    · rintro (h | ⟨h, hM⟩ | h | h | h | ⟨_, hl, _, h, _⟩)
       · exact Or.inl h
       · exact Or.inl ⟨f2 _ h, hM⟩
       · exact Or.inr (Or.inr (Or.inl h))
       · exact Or.inr (Or.inr (Or.inr (Or.inl h)))
       · exact Or.inr (Or.inr (Or.inr (Or.inr (Or.inl h))))
       · exact absurd h (f6 _ hl)
-    · rintro (h | ⟨h, _⟩ | h | h | h | ⟨_, _, h, _⟩)
+    · rintro (h | ⟨h, _⟩ | h | h | h | ⟨_, _, _, h, _⟩)
       · exact Or.inl h
       · exact absurd h (g _)
       · exact Or.inr (Or.inr (Or.inl h))
